@@ -19,7 +19,7 @@ pub struct KernelCase {
     pub os: usize,
     pub window: u8,
     pub fc: f32,
-    /// 0 uniform, 1 huge dynamic range (1e-12..1e12), 2 tiny (1e-30)
+    /// 0 uniform, 1 huge dynamic range (1e-12..1e12), 2 tiny (1e-30), 3 around the smallest normal number (subnormal samples and products)
     pub wave: u8,
     pub seed: u64,
     /// offset of the slice start inside a larger allocation (0..=7 elements)
@@ -100,7 +100,7 @@ fn run_kernel<T: SampleX>(c: &KernelCase) -> Outcome {
     let os = c.os.max(1);
     o.class(if c.f32 { "sample:f32" } else { "sample:f64" });
     o.class(if (l / 8) % 2 == 1 { "L/8 odd" } else { "L/8 even" });
-    o.class(format!("wave:{}", c.wave % 3));
+    o.class(format!("wave:{}", c.wave % 4));
     o.class(format!("align:{}", c.align % 8));
     let w = window_of(c.window);
     let scalar = ScalarInterpolator::<T>::new(l, os, c.fc, w);
@@ -120,10 +120,11 @@ fn run_kernel<T: SampleX>(c: &KernelCase) -> Outcome {
     let mut wave64 = vec![0.0f64; n];
     for i in 0..n {
         let v = 2.0 * unit(i as u64) - 1.0;
-        let v = match c.wave % 3 {
+        let v = match c.wave % 4 {
             0 => v,
             1 => v * 10f64.powf(24.0 * unit(1_000_000 + i as u64) - 12.0),
-            _ => v * 1e-30,
+            2 => v * 1e-30,
+            _ => v * (if c.f32 { f32::MIN_POSITIVE as f64 } else { f64::MIN_POSITIVE }) * 10f64.powf(6.0 * unit(2_000_000 + i as u64) - 3.0),
         };
         let t = T::of64(v);
         store[align + i] = t;
@@ -156,7 +157,9 @@ fn run_kernel<T: SampleX>(c: &KernelCase) -> Outcome {
         let v0 = scalar.get_sinc_interpolated(wave, index, sub).f64v();
         let v1 = avx.get_sinc_interpolated(wave, index, sub).f64v();
         let v2 = sse.get_sinc_interpolated(wave, index, sub).f64v();
-        let bound = (l as f64 / 8.0 + 4.0) * eps * sum_abs + f64::MIN_POSITIVE;
+        // products in the subnormal range are rounded to multiples of the smallest subnormal
+        let tiny = if c.f32 { f32::from_bits(1) as f64 } else { f64::from_bits(1) };
+        let bound = (l as f64 / 8.0 + 4.0) * eps * sum_abs + 2.0 * l as f64 * tiny;
         for (name, v) in [("avx", v1), ("sse", v2)] {
             let d = (v - v0).abs();
             if d / bound > worst {
@@ -173,7 +176,7 @@ fn run_kernel<T: SampleX>(c: &KernelCase) -> Outcome {
         if let Some(r) = &reference {
             let exact: f64 = (0..l).map(|p| wave64[index + p] * r[sub][p]).sum();
             let sum_abs_r: f64 = (0..l).map(|p| (wave64[index + p] * r[sub][p]).abs()).sum();
-            let b = 64.0 * f64::EPSILON * sum_abs_r + f64::MIN_POSITIVE;
+            let b = 64.0 * f64::EPSILON * sum_abs_r + 2.0 * l as f64 * f64::from_bits(1) + f64::MIN_POSITIVE;
             let d = (v0 - exact).abs();
             if d / b > worst_ref {
                 worst_ref = d / b;
@@ -262,7 +265,7 @@ impl Property for C15 {
         "C15"
     }
     fn rule(&self) -> String {
-        "kernel cases = f32/f64, sinc_len (every multiple of 8 up to 512 forced), oversampling, window, cutoff, waveform (uniform / 24 decades of dynamic range / 1e-30), slice start at offset 0..7 inside a larger allocation, 4 corner + up to 64 generated (index, subindex) points: AVX and SSE vs scalar within (L/8+4) eps sum|products|, scalar vs an independently derived f64 table within 64 eps sum|products|, and bit-identical finite results with everything outside [index, index+L) set to NaN. stream cases = a sinc resampler built with new() and with new_with_interpolator on the scalar, SSE and AVX kernels on the same input. non-trivial = every kernel case; stream cases with >= 500 frames. distinct = distinct case JSON digest.".into()
+        "kernel cases = f32/f64, sinc_len (every multiple of 8 up to 512 forced), oversampling, window, cutoff, waveform (uniform / 24 decades of dynamic range / 1e-30 / around the smallest normal number, i.e. subnormal samples and products), slice start at offset 0..7 inside a larger allocation, 4 corner + up to 64 generated (index, subindex) points: AVX and SSE vs scalar within (L/8+4) eps sum|products|, scalar vs an independently derived f64 table within 64 eps sum|products|, and bit-identical finite results with everything outside [index, index+L) set to NaN. stream cases = a sinc resampler built with new() and with new_with_interpolator on the scalar, SSE and AVX kernels on the same input. non-trivial = every kernel case; stream cases with >= 500 frames. distinct = distinct case JSON digest.".into()
     }
     fn assumptions(&self) -> Vec<String> {
         vec![
@@ -276,7 +279,7 @@ impl Property for C15 {
     fn strategy(&self, tier: Tier) -> BoxedStrategy<Case> {
         let th = tier.thorough();
         let max_tab: usize = if th { 1 << 19 } else { 1 << 15 };
-        let kernel = (any::<bool>(), 1usize..=64, prop_oneof![1 => Just(1usize), 1 => Just(2usize), 4 => 1usize..=2048], 0u8..6, 0.2f32..1.0, 0u8..3, any::<u64>(), 0u8..8, 1usize..300, proptest::collection::vec((any::<u16>(), any::<u16>()), 8..=64))
+        let kernel = (any::<bool>(), 1usize..=64, prop_oneof![1 => Just(1usize), 1 => Just(2usize), 4 => 1usize..=2048], 0u8..6, 0.2f32..1.0, 0u8..4, any::<u64>(), 0u8..8, 1usize..300, proptest::collection::vec((any::<u16>(), any::<u16>()), 8..=64))
             .prop_map(move |(f32, l8, os, window, fc, wave, seed, align, extra, points)| {
                 let os = os.min((max_tab / (8 * l8)).max(1));
                 Case::Kernel(KernelCase { f32, l8, os, window, fc, wave, seed, align, extra, points })
@@ -304,7 +307,7 @@ impl Property for C15 {
             for f32 in [false, true] {
                 for (os, window) in [(1usize, 0u8), (3, 3), (16, 5)] {
                     let points = (0..48u32).map(|i| ((i * 1361 % 65536) as u16, (i * 7919 % 65536) as u16)).collect();
-                    v.push(Case::Kernel(KernelCase { f32, l8, os, window, fc: 0.91, wave: (l8 % 3) as u8, seed: l8 as u64, align: (l8 % 8) as u8, extra: 1 + l8 % 5, points }));
+                    v.push(Case::Kernel(KernelCase { f32, l8, os, window, fc: 0.91, wave: (l8 % 4) as u8, seed: l8 as u64, align: (l8 % 8) as u8, extra: 1 + l8 % 5, points }));
                 }
             }
         }
